@@ -1105,7 +1105,7 @@ class Const(ValueCastable):
         # Field guarantees that the shape-castable object is well-formed, so there is no need
         # to handle erroneous cases here.
         if isinstance(shape, ShapeCastable):
-            return shape.from_bits(value)
+            return shape.from_bits(hdl.Const(value, Shape.cast(shape)).value)
         return hdl.Const(value, Shape.cast(shape)).value
 
     def __getattr__(self, name):
